@@ -47,6 +47,16 @@ def cases(draw, tier):
     elif mode == 'mm':
         names = ['i', 'j', 'k']; tys = {n: tys.get(n) or draw(gp.types(max_numel=12)) for n in names}
         sig = [['i', 'j'], ['j', 'k']]; output = ['i', 'k']
+    elif mode == 'viterbi-ptr' and draw(st.integers(0, 2)) == 0:
+        # three output axes and a summed-out index that a shared axis (diagonal pattern) ties to one of them: its arg-max
+        # is read off the output cell's own coordinates
+        names = ['i', 'j', 'k', 'l']
+        tk = ['atom', draw(st.sampled_from([2, 3]))]
+        tys = {'i': ['atom', draw(st.sampled_from([2, 3]))], 'j': ['atom', draw(st.sampled_from([2, 3]))], 'k': tk, 'l': tk}
+        if draw(st.booleans()): tys['j'] = tk
+        sig = draw(st.sampled_from([[['i', 'j', 'k', 'l']], [['i', 'j', 'k'], ['k', 'l'], ['l']], [['i', 'j'], ['j', 'k', 'l'], ['l', 'k']]]))
+        output = list(draw(st.permutations(['i', 'j', 'k'])))
+        pk = dict(p_reuse=0.7, p_bcast=0.05)
     elif draw(st.integers(0, 4)) == 0:
         # structured scenarios: every index has one structured (product / sum) type and no operand is dense, so that
         # (a) aliased operands share axes that occur only nested inside product/sum axes, (b) two operands select
